@@ -591,6 +591,31 @@ pub fn text_strategy(v: Variant) -> BoxedStrategy<TextSpec> {
     prop_oneof![3 => valid, 5 => mutated, 2 => raw].boxed()
 }
 
+/// Texts whose header sits at the two strict-parser gates (checksum 0x30/0x31/0xFF/0x00, length
+/// code 0xA9/0xAA/0xFF/0x00), optionally with up to two non-hex characters in the body: in a
+/// strict build, inputs with two or three faults at once (which one is reported is observable).
+pub fn gated_text_strategy(v: Variant) -> BoxedStrategy<Vec<u8>> {
+    (
+        hash_bytes_strategy(v),
+        any::<bool>(),
+        proptest::sample::select(vec![0x30u8, 0x31, 0xFF, 0x00]),
+        proptest::sample::select(vec![0xA9u8, 0xAA, 0xFF, 0x00]),
+        vec((any::<u16>(), proptest::sample::select(vec![b'G', b'@', b' ', b'g', 0x7f, 0x80])), 0..3),
+    )
+        .prop_map(move |(mut b, with, c, l, bad)| {
+            b[0] = c;
+            b[v.ck] = l;
+            let mut t = vmodel::text::encode(v, &b, with);
+            let first_body = t.len() - 2 * v.body();
+            for (pos, ch) in bad {
+                let i = first_body + idx(pos, 2 * v.body());
+                t[i] = ch;
+            }
+            t
+        })
+        .boxed()
+}
+
 /// Strings restricted to valid UTF-8 (for the `&str` entry points).
 pub fn utf8_text_strategy(v: Variant) -> BoxedStrategy<String> {
     let from_spec = text_strategy(v).prop_map(move |t| String::from_utf8_lossy(&t.render(v)).into_owned());
